@@ -236,6 +236,9 @@ func ParseStatic(content []byte, opts ParseStaticOptions) (*Static, error) {
 				for _, service := range serviceIdToService {
 					result.Services = append(result.Services, service)
 				}
+				sort.Slice(result.Services, func(i, j int) bool {
+					return result.Services[i].Id < result.Services[j].Id
+				})
 			},
 			Optional: true,
 		},
